@@ -393,7 +393,13 @@ class Arr:
     def astype(self, t, copy=True, **k):
         if k:
             raise AnalysisError(f'ndarray.astype with {sorted(k)} has no model')
-        return Arr(self.shape, self.legs, dtype_of(t), None if copy or dtype_of(t) != self.dt else self.buf, self.tags, 'astype', parents=(self,))
+        r = Arr(self.shape, self.legs, dtype_of(t), None if copy or dtype_of(t) != self.dt else self.buf, self.tags, 'astype', parents=(self,))
+        rank = {'bool': 0, 'int': 1, 'real': 2, 'complex': 3}
+        if rank.get(r.dt, 3) < rank.get(self.dt, 0) and self.dt in ('complex', 'real') and r.dt != 'bool':
+            # a cast to a narrower kind discards information (imaginary part / fractional part), whatever the values are
+            CTX.event('complex-loss' if self.dt == 'complex' else 'float-loss', target=r, value=self,
+                      detail=f'astype casts a {self.dt} array to {r.dt}: the ' + ('imaginary part is discarded' if self.dt == 'complex' else 'values are truncated towards zero'))
+        return r
 
     def conj(self):
         t = {}
